@@ -242,6 +242,17 @@ func execParse(in val.V) (out val.V) {
 		// configured must still be in force after a reconnect and the last event ID is the one the first attempt left
 		first := in.At(6).Str()
 		attempts := 0
+		// half of the responses announce their length (truthfully: only bodies that end cleanly), the others do not (-1)
+		var total int64
+		for _, c := range chunks {
+			total += int64(len(c))
+		}
+		announced := func(n int64, clean bool) int64 {
+			if clean && n%2 == 0 {
+				return n
+			}
+			return -1
+		}
 		bo := sse.Backoff{MaxRetries: -1}
 		var secondErr error
 		var onRetryErr func(error, time.Duration)
@@ -266,9 +277,11 @@ func execParse(in val.V) (out val.V) {
 					return nil, context.Canceled
 				}
 				if entry == 4 && attempts == 1 {
-					return &http.Response{StatusCode: http.StatusOK, Body: io.NopCloser(strings.NewReader(first)), Request: r, Header: http.Header{}}, nil
+					return &http.Response{StatusCode: http.StatusOK, Body: io.NopCloser(strings.NewReader(first)), Request: r, Header: http.Header{},
+						ContentLength: announced(int64(len(first)), true)}, nil
 				}
-				return &http.Response{StatusCode: http.StatusOK, Body: rd, Request: r, Header: http.Header{}}, nil
+				return &http.Response{StatusCode: http.StatusOK, Body: rd, Request: r, Header: http.Header{},
+					ContentLength: announced(total, in.At(2).K == 'n' && in.At(2).Num() == 0)}, nil
 			})},
 			ResponseValidator: sse.NoopValidator,
 			Backoff:           bo,
